@@ -231,6 +231,8 @@ class RemoteObject(Generic[_T], types.Resolvable[_T]):
     return hash(self.value)
 
   def __eq__(self, other: Self) -> bool:
+    if not isinstance(other, RemoteObject):
+      return NotImplemented
     return self.value == other.value
 
   def __str__(self) -> str:
